@@ -1,10 +1,17 @@
 package scen
 
 import (
+	sdk "github.com/cosmos/cosmos-sdk/types"
+	ammtypes "github.com/elys-network/elys/x/amm/types"
+	perptypes "github.com/elys-network/elys/x/perpetual/types"
+
+	"verifharness/chain"
 	"verifharness/run"
 )
 
-// mix: prologue + free mixed traffic over every DeFi module (the random-history workload).
+// mix: prologue + free mixed traffic over every DeFi module (the random-history workload), with
+// one directed phase in the middle: positions holding a large custody relative to the pool's
+// reserve, then every liquidity provider tries to leave with 90 % of its shares.
 func init() {
 	run.Register("mix", func(c *run.Ctx) {
 		v := NewVariant(c)
@@ -12,6 +19,81 @@ func init() {
 		v.Prologue(w)
 		g := v.Gen(w, c, MixAll)
 		g.FeeProb = 0.2
-		g.Free(c.N(200, 600), g.StdDt)
+		n := c.N(200, 600)
+		g.Free(n/2, g.StdDt)
+		exitAgainstCustody(c, w)
+		g.Free(n-n/2, g.StdDt)
 	})
+}
+
+// exitAgainstCustody: low-leverage longs (tiny liabilities, so the pool health stays high) with
+// custody worth 10-25 % of the trading-asset reserve each, a gap beyond the liquidity lock, then
+// exits of 90 % by every share holder of the pool, one per block.
+func exitAgainstCustody(c *run.Ctx, w *chain.World) {
+	if w.Dead {
+		return
+	}
+	ctx := w.ReadCtx()
+	pool, ok := w.App.AmmKeeper.GetPool(ctx, 1)
+	if !ok {
+		return
+	}
+	var reserve int64
+	for _, a := range pool.PoolAssets {
+		if a.Token.Denom == "uatom" {
+			reserve = a.Token.Amount.Int64()
+		}
+	}
+	atom := w.Prices["ATOM"]
+	txs := []*chain.TxRecord{}
+	for i, a := range w.Users[8:11] {
+		col := reserve / int64(8-2*i)
+		txs = append(txs, w.Tx(a, &perptypes.MsgOpen{Creator: a.S(), Position: perptypes.Position_LONG, Leverage: chain.Dec("1.1"), TradingAsset: "uatom", Collateral: chain.Coin("uatom", col), TakeProfitPrice: atom.MulInt64(4), StopLossPrice: chain.Dec("0"), PoolId: 1}))
+	}
+	b := w.Step(5, txs...)
+	if w.Dead {
+		return
+	}
+	for _, t := range b.Txs[1:] {
+		if t.OK() {
+			c.Ev("large_custody_position_opened")
+		}
+	}
+	w.Step(4000)
+	// single-denom exits of a tenth each (oracle pools price them at the pool's TVL, which has to
+	// leave the traders' custody out), then the 90 % exits
+	k := 0
+	for _, a := range w.Users {
+		if w.Dead || k >= 4 {
+			break
+		}
+		cm := w.App.CommitmentKeeper.GetCommitments(w.ReadCtx(), a.Addr)
+		have := cm.GetCommittedAmountForDenom(ammtypes.GetPoolShareDenom(1))
+		if !have.IsPositive() {
+			continue
+		}
+		b := w.Step(5, w.Tx(a, &ammtypes.MsgExitPool{Sender: a.S(), PoolId: 1, ShareAmountIn: have.QuoRaw(10), TokenOutDenom: []string{"uusdc", "uatom"}[k%2], MinAmountsOut: sdk.NewCoins()}))
+		k++
+		if !w.Dead && b.Txs[1].OK() {
+			c.Ev("single_denom_exit_with_large_custody_accepted")
+		} else {
+			c.Ev("single_denom_exit_with_large_custody_refused")
+		}
+	}
+	for _, a := range w.Users {
+		if w.Dead {
+			return
+		}
+		cm := w.App.CommitmentKeeper.GetCommitments(w.ReadCtx(), a.Addr)
+		have := cm.GetCommittedAmountForDenom(ammtypes.GetPoolShareDenom(1))
+		if !have.IsPositive() {
+			continue
+		}
+		b := w.Step(5, w.Tx(a, &ammtypes.MsgExitPool{Sender: a.S(), PoolId: 1, ShareAmountIn: have.MulRaw(9).QuoRaw(10), MinAmountsOut: sdk.NewCoins()}))
+		if !w.Dead && b.Txs[1].OK() {
+			c.Ev("exit_against_custody_accepted")
+		} else {
+			c.Ev("exit_against_custody_refused")
+		}
+	}
 }
